@@ -351,15 +351,16 @@ def judge(case, reports, verdict, diagnosis):
         # phase 2 is called 'restart' only when phase 1 already went through the same call at the same scale
         name = r["call"] if (r["phase"] == 1 or case["call"] != "start") else "restart"
         exp = total * r["phase"]
+        shown = "the second start() on the drained scheduler" if name == "restart" else name + "()"
         if r.get("raised"):
-            problems.append((f"{clock_t}|same-instant{scale}|{name}-raises", f"{name}() raised {r['raised']}", r))
+            problems.append((f"{clock_t}|same-instant{scale}|{name}-raises", f"{shown} raised {r['raised']}", r))
         elif r["n_not_once"]:
             less = any(c == 0 for _, c in r["not_once"])
             what = "skipped-actions" if less else "ran-twice"
             problems.append(
                 (
                     f"{clock_t}|same-instant{scale}|{name}-{what}",
-                    f"{name}() returned but {r['n_not_once']} of {r['scheduled']} actions did not run exactly once (e.g. {r['not_once'][:3]})",
+                    f"{case['clock']}, {case['shape']} n={case['n']}: {shown} returned but {r['n_not_once']} of {r['scheduled']} actions did not run exactly once (e.g. {r['not_once'][:3]})",
                     r,
                 )
             )
@@ -370,17 +371,16 @@ def judge(case, reports, verdict, diagnosis):
         stuck = entering[-1] if entering else {"phase": 0, "call": "setup"}
         name = stuck["call"] if (stuck["phase"] == 1 or case["call"] != "start") else "restart"
         how = "is blocked forever (sleeping on a lock, no CPU progress)" if verdict == "blocked" else f"was still running after {HARD_CAP_S:.0f} s"
+        shown = "the second start() on the drained scheduler" if name == "restart" else name + "()"
         inner = [l.strip() for l in diagnosis.splitlines() if l.strip().startswith("File")][:4]
         problems.append(
             (
                 f"{clock_t}|same-instant{scale}|{name}-hangs",
-                f"{case['clock']} with {per_instant} actions in one instant ({case['shape']}): {name}() never returns, child {how}",
+                f"{case['clock']} with {per_instant} actions in one instant ({case['shape']}): {shown} never returns, child {how}",
                 {"verdict": verdict, "stuck_in": stuck, "python_stack_innermost_first": inner},
             )
         )
         outcome.append((stuck["phase"], "hang"))
-    elif verdict == "died":
-        raise RuntimeError("child died: " + diagnosis)
     elif len(done) != 2 and not any(r.get("raised") for r in done):
         raise RuntimeError(f"harness: child exited with {len(done)} phase reports")
     return problems, tuple(outcome)
